@@ -4,7 +4,7 @@ import math
 import re
 
 from ..core import World, Violation, Skip
-from ..filekit import FileKit, WRITE_FAULTS, READ_FAULTS, gen_fault, gen_alloc, gen_jump
+from ..filekit import FileKit, WRITE_FAULTS, READ_FAULTS, gen_fault, gen_alloc, gen_jump, side_stream
 
 H2O_LOW = [4.19864056E+00, -2.03643410E-03, 6.52040211E-06, -5.48797062E-09, 1.77197817E-12, -3.02937267E+04,
            -8.49032208E-01]
@@ -62,7 +62,7 @@ class WorldC06(World):
     STATE_RULE = 'per path: (absent | undefined | which file kind it holds), number of models, writes so far bucket'
     PROBES = ('gas-reaction-in-mechanism', 'adsorption-reaction', 'surface-reaction-with-ts', 'surface-reaction-without-ts',
               'two-or-three-sites', 'stoich-2-or-3', 'text-path', 'file-path', 'crlf-newline', 'cr-newline', 'overwrite',
-              'write-after-failed-write', 'recovery-after-fault', 'alloc-failure-signalled', 'alloc-failure-over-existing-file', 'read-back-gas', 'read-back-surf', 'read-of-torn-file',
+              'write-after-failed-write', 'recovery-after-fault', 'write-through-symlink', 'relative-name-in-case-directory', 'alloc-failure-signalled', 'alloc-failure-over-existing-file', 'read-back-gas', 'read-back-surf', 'read-of-torn-file',
               'read-absent', 'fault-did-not-fire', 'clock-jump-before-write', 'same-model-written-twice',
               'dimensionless-activation', 'gibbs-activation', 'eight-conditions', 'custom-delimiters',
               'mole-fraction-missing-species', 'EA-gas', 'EA-surface', 'reactants-gas-products-surface',
@@ -236,7 +236,13 @@ class WorldC06(World):
             op = self.plan.pop(0)
             op.setdefault('gc', True)
             return op
+        side = side_stream(rng)
         op = self._gen_op0(rng)
+        if op is not None and op['op'].startswith('write_') and op['args'].get('opts', {}).get('to_file') \
+                and op.get('fault') is None and side.random() < 0.12:
+            op['args']['link'] = True
+        elif op is not None and op['op'].startswith('write') and isinstance(op.get('args'), dict) and side.random() < 0.15:
+            op['args']['rel'] = side.choice(['caseA', 'caseB', 'caseB/run2'])
         if op is not None and op['op'].startswith('write_') and op['args'].get('opts', {}).get('to_file') and not self.plan \
                 and rng.random() < 0.06:
             # scripted: the disk fills up half-way through a write; the caller frees space and writes the same thing again;
@@ -822,7 +828,7 @@ class WorldC06(World):
         token = {'kind': name, 'model': a['model'], 'opts': o}
         if a.get('enum'):
             return kit.enumerate_faults('_enum.inp', call, judge, o['newline'], what, token)
-        out = kit.write(a['path'], call, judge, o['newline'], what, token, op.get('fault'))
+        out = kit.write(a['path'], call, judge, o['newline'], what, token, op.get('fault'), link=bool(a.get('link')), rel=a.get('rel'))
         return out
 
     def _op_read(self, a, fault):
